@@ -4,7 +4,7 @@
 Require Extraction.
 Require Import ExtrOcamlBasic.
 From Similar Require Import Model.Base Model.Utils Model.Myers Model.Lcs Model.Hooks
-     Model.Patience Model.Compact Model.Capture Model.Iter.
+     Model.Patience Model.Compact Model.Capture Model.Iter Check.Script.
 
 
 Extraction "../ocaml/model.ml"
@@ -13,4 +13,6 @@ Extraction "../ocaml/model.ml"
   cleanup_diff_ops group_diff_ops diff_ratio
   iter_changes iter_all_changes iter_slices
   identify_distinct unique common_prefix_len common_suffix_len
-  clock_at cmp_of slice_lookup offset_lookup capture_calls op_to_call.
+  clock_at cmp_of slice_lookup offset_lookup capture_calls op_to_call
+  check_raw check_finish_last check_ops_loose check_ops_exact check_normal
+  check_alternating check_insert_latest deleted inserted equal_total lcs_len check_minimal.
